@@ -330,6 +330,28 @@ func (rw *rewriter) run() {
 				n.Fun = sel("vrt", "NetListen")
 				rw.needVrt = true
 			}
+		case *ast.RangeStmt:
+			// rule A10: iteration over a map in a deterministic key order (Go randomises it; the explorer must own
+			// every source of nondeterminism, and a replayed prefix must see the same order again)
+			if t := rw.info.TypeOf(n.X); t != nil {
+				if _, isMap := t.Underlying().(*types.Map); isMap && n.Tok == token.DEFINE {
+					keyName := "vrtKey"
+					if id, ok := n.Key.(*ast.Ident); ok && id.Name != "_" {
+						keyName = id.Name
+					}
+					var pre []ast.Stmt
+					if n.Value != nil {
+						if id, ok := n.Value.(*ast.Ident); !ok || id.Name != "_" {
+							pre = append(pre, &ast.AssignStmt{Lhs: []ast.Expr{n.Value}, Tok: token.DEFINE, Rhs: []ast.Expr{&ast.IndexExpr{X: n.X, Index: ast.NewIdent(keyName)}}})
+						}
+					}
+					n.Body.List = append(pre, n.Body.List...)
+					n.Key = ast.NewIdent("_")
+					n.Value = ast.NewIdent(keyName)
+					n.X = rw.vrt("SortedKeys", n.X)
+					rw.stats["maprange"]++
+				}
+			}
 		case *ast.GoStmt:
 			rw.stats["go"]++
 			c.Replace(rw.goStmt(n))
